@@ -1003,3 +1003,126 @@ Proof.
   - reflexivity.
   - pose proof (verify_total_lemma c) as T. rewrite E in T. discriminate.
 Qed.
+
+(* ================================================================ the repairs only restrict *)
+(* every configuration the repaired loader accepts was accepted by the original loader: the fixes
+   turn acceptances into errors, never the other way round *)
+Notation oq := original_quirks.
+
+Lemma expander_parts_relax : forall resolve ps r,
+  expander_parts false resolve ps = Ok r -> expander_parts true resolve ps = Ok r.
+Proof.
+  intros resolve ps. induction ps as [|p ps IH]; intros r H; simpl in *; [assumption|].
+  destruct p as [s|name|body|].
+  - binds H. rewrite (IH _ Hb). assumption.
+  - destruct (resolve name); [|discriminate]. binds H. rewrite (IH _ Hb). assumption.
+  - destruct (parse_vexpr body) as [[name bounds]|]; [|discriminate].
+    destruct (resolve name); [|discriminate]. destruct bounds as [[a b]|].
+    + binds H.
+      assert (Hs : forall s d z, slice_bound false s d = Ok z -> slice_bound true s d = Ok z).
+      { intros s d z Hz. destruct s as [|c s]; simpl in *; [assumption|]. destruct (atoi (c :: s)); [assumption|discriminate]. }
+      rewrite (Hs _ _ _ Hb), (Hs _ _ _ Hb0). cbn [obind]. rewrite (IH _ Hb1). assumption.
+    + binds H. rewrite (IH _ Hb). assumption.
+  - auto.
+Qed.
+
+Lemma check_template_relax : forall scope t, check_template fq scope t = Ok tt -> check_template oq scope t = Ok tt.
+Proof.
+  intros scope t H. unfold check_template in *. simpl in *. binds H. unfold new_expander in *.
+  destruct (has_dollar2 t); [discriminate|]. binds Hb. rewrite (expander_parts_relax _ _ _ Hb0). cbn [obind].
+  destruct (has_skip _); [discriminate|]. reflexivity.
+Qed.
+
+Lemma verify_addfields_relax : forall sch l, verify_addfields fq sch l = Ok tt -> verify_addfields oq sch l = Ok tt.
+Proof.
+  induction l as [|[k t] l IH]; intro H; simpl in *; [assumption|]. binds H.
+  rewrite Hb. cbn [obind]. rewrite (check_template_relax _ _ Hb0). cbn [obind]. auto.
+Qed.
+
+Lemma verify_captures_relax : forall sch key names, check_field sch key = Ok tt ->
+  verify_captures fq sch key names = Ok tt -> verify_captures oq sch key names = Ok tt.
+Proof.
+  intros sch key names Hk. induction names as [|n r IH]; intro H; simpl in *; [assumption|]. binds H.
+  rewrite Hk. cbn [obind]. auto.
+Qed.
+
+Lemma verify_special_pattern_relax : forall pos p m,
+  verify_special_pattern fq pos p m = Ok tt -> verify_special_pattern oq pos p m = Ok tt.
+Proof.
+  intros pos p m H. unfold verify_special_pattern in *. simpl in *.
+  unfold new_string_extractor_simple in H. destruct (split_pattern p) as [parts|e|s]; simpl in H; try discriminate. reflexivity.
+Qed.
+
+Lemma verify_transforms_relax :
+  (forall t sch, verify_t fq sch t = Ok tt -> verify_t oq sch t = Ok tt) /\
+  (forall l sch, verify_tl fq sch l = Ok tt -> verify_tl oq sch l = Ok tt) /\
+  (forall l sch, verify_cl fq sch l = Ok tt -> verify_cl oq sch l = Ok tt).
+Proof.
+  apply transform_mutind.
+  - intros fields sch H. veq H. cbn [verify_t]. binds H. rewrite Hb. cbn [obind]. apply verify_addfields_relax. assumption.
+  - intros steps IH sch H. veq H. rewrite verify_t_block. binds H. rewrite Hb. cbn [obind]. auto.
+  - intros keys sch H. exact H.
+  - intros m pct label sch H. exact H.
+  - intros key pattern re sch H. veq H. cbn [verify_t]. binds H. rewrite Hb, Hb0. cbn [obind].
+    destruct re as [names|]; [|discriminate]. apply verify_captures_relax; [|assumption].
+    unfold check_key in Hb. binds Hb. assumption.
+  - intros pos key pattern maxlen dest sch H. veq H. cbn [verify_t]. binds H.
+    rewrite Hb, Hb0, (verify_special_pattern_relax _ _ _ Hb1), Hb2. cbn [obind]. assumption.
+  - intros m then_ IH sch H. veq H. rewrite verify_t_if. binds H. rewrite Hb, Hb0. cbn [obind]. auto.
+  - intros key mapping default sch H. exact H.
+  - intros key label sch H. exact H.
+  - intros key label sch H. exact H.
+  - intros key pattern re_ok repl sch H. exact H.
+  - intros cases IH sch H. veq H. rewrite verify_t_switch. binds H. rewrite Hb. cbn [obind]. auto.
+  - intros key maxlen suffix sch H. exact H.
+  - intros key sch H. exact H.
+  - intros sch H. exact H.
+  - intros sch H. exact H.
+  - intros t IHt ts IHts sch H. veq H. rewrite verify_tl_cons. binds H. rewrite (IHt _ Hb). cbn [obind]. auto.
+  - intros sch H. exact H.
+  - intros m then_ IHt cs IHcs sch H. veq H. rewrite verify_cl_cons. binds H.
+    rewrite Hb, Hb0, (IHt _ Hb1). cbn [obind]. auto.
+Qed.
+
+Lemma verify_tl_relax : forall l sch, verify_tl fq sch l = Ok tt -> verify_tl oq sch l = Ok tt.
+Proof. apply verify_transforms_relax. Qed.
+
+Ltac rw_ok := repeat match goal with H : ?x = Ok _ |- context [?x] => rewrite H; cbn [obind] end.
+
+Lemma verify_pairs_relax : forall sch l seen, verify_pairs fq sch seen l = Ok tt -> verify_pairs oq sch seen l = Ok tt.
+Proof.
+  intros sch l. induction l as [|p r IH]; intros seen H; simpl in *; [assumption|]. binds H.
+  rewrite Hb. cbn [obind]. rewrite (IH _ H).
+  unfold verify_pair in *. simpl in *. binds Hb0. binds Hb1. apply check_ok in Hb1. apply check_ok in Hb3.
+  assert (Hbuf : verify_buffer oq (p_buffer p) = Ok tt).
+  { destruct (p_buffer p); simpl in *; try discriminate; assumption. }
+  assert (Hout : verify_output oq sch (p_output p) = Ok tt).
+  { destruct (p_output p) as [env hidden rw mode addr ok dur|hidden addr ok dur| |]; simpl in *; try discriminate.
+    - binds Hb0. rw_ok. reflexivity.
+    - binds Hb0. rw_ok. reflexivity. }
+  rewrite Hbuf, Hout. reflexivity.
+Qed.
+
+Lemma verify_inputs_relax : forall sch l, verify_inputs fq sch l = Ok tt -> verify_inputs oq sch l = Ok tt.
+Proof.
+  intros sch l. induction l as [|i r IH]; intro H; simpl in *; [assumption|]. binds H. rewrite (IH H).
+  destruct i as [addr ok levels ex|]; simpl in *; [|discriminate]. binds Hb.
+  rewrite Hb0, Hb1, Hb2, Hb3, (verify_tl_relax _ _ Hb). reflexivity.
+Qed.
+
+Theorem fixes_only_restrict_lemma : forall c, verify fq c = Ok tt -> verify oq c = Ok tt.
+Proof.
+  intros c H. unfold verify in *. binds H. rewrite Hb, Hb0. cbn [obind].
+  rewrite (verify_inputs_relax _ _ Hb1). cbn [obind].
+  assert (Horch : verify_orch oq (c_fields c) (c_orch c) = Ok ub2).
+  { destruct (c_orch c) as [keys tag|tag| |]; simpl in *; try discriminate.
+    - binds Hb2. match goal with H : check_template fq _ _ = Ok tt |- _ => apply check_template_relax in H end.
+      rw_ok. try assumption; reflexivity.
+    - binds Hb2. match goal with H : check_template fq _ _ = Ok tt |- _ => apply check_template_relax in H end.
+      rw_ok. try assumption; reflexivity. }
+  rewrite Horch. cbn [obind].
+  assert (Hmk : verify_metric_keys oq (c_fields c) ub2 (c_metric_keys c) = Ok tt).
+  { unfold verify_metric_keys in *. simpl in *. binds Hb3. rw_ok. try assumption; reflexivity. }
+  rewrite Hmk. cbn [obind]. rewrite (verify_tl_relax _ _ Hb4). cbn [obind]. simpl.
+  apply verify_pairs_relax. assumption.
+Qed.
